@@ -464,7 +464,8 @@ theorem syncCreateTasks_good (jo : JobObj) (rj : Job) (tasks : List Task) (s : S
 
 /-! ### the three handlers -/
 
-theorem handleKillJob_good (rj : Job) (tasks : List Task) (s : Sys) : Good (fun t => handleKillJob t rj tasks) s := by
+theorem handleKillJob_good (jo : JobObj) (rj : Job) (tasks : List Task) (s : Sys) :
+    Good (fun t => handleKillJob t jo rj tasks) s := by
   by_cases h1 : shouldKillJob s.clock rj = true
   · by_cases h2 : (JobCtlPlan.killTargets tasks).isEmpty = true
     · exact Good.of_eq (fun q' => by rw [JobCtlPlan.handleKillJob_eq]; simp only [setQ, h1, h2, if_true])
@@ -475,11 +476,16 @@ theorem handleKillJob_good (rj : Job) (tasks : List Task) (s : Sys) : Good (fun 
       rw [JobCtlPlan.handleKillJob_eq]
       have : shouldKillJob (setQ s q').clock rj = true := h1
       rw [if_pos this, if_neg h2]
-  · exact Good.of_eq (fun q' => by
-        rw [JobCtlPlan.handleKillJob_eq]
-        have : ¬ shouldKillJob (setQ s q').clock rj = true := h1
-        rw [if_neg this])
-      (Good.pure (fun _ => some rj) s (fun _ => rfl))
+  · -- not to be killed (yet): a kill timestamp in the future arms a timer for it, nothing else
+    have hnk0 : shouldKillJob s.clock rj = false := by simpa using h1
+    have hnk : ∀ q', shouldKillJob (setQ s q').clock rj = false := fun _ => hnk0
+    cases hts : rj.killTimestamp with
+    | none =>
+      exact Good.of_eq (fun q' => by rw [JobCtlPlan.handleKillJob_not _ jo rj tasks (hnk q'), hts])
+        (Good.pure (fun _ => some rj) s (fun _ => rfl))
+    | some ts =>
+      exact Good.of_eq (fun q' => by rw [JobCtlPlan.handleKillJob_not _ jo rj tasks (hnk q'), hts])
+        (enqueueAfter_good (jobKey jo) ts (some rj) s)
 
 theorem pendStep_good (key : String) (T : Int) (nd : List Task) (task : Task) (s : Sys) :
     Good (fun t => JobCtlPlan.pendStep key T (t, nd) task) s := by
@@ -616,7 +622,7 @@ def tasksK4 (jo : JobObj) (tasks1 : List Task) (o : Option Job) (s4 : Sys) : Sys
 def tasksK3 (jo : JobObj) (tasks1 : List Task) (o : Option Job) (s3 : Sys) : Sys × Option Job :=
   match o with
   | none => (s3, none)
-  | some rj3 => tasksK4 jo tasks1 (handleKillJob s3 rj3 tasks1).2 (handleKillJob s3 rj3 tasks1).1
+  | some rj3 => tasksK4 jo tasks1 (handleKillJob s3 jo rj3 tasks1).2 (handleKillJob s3 jo rj3 tasks1).1
 
 def tasksK2 (jo : JobObj) (tasks1 : List Task) (rj2 : Job) (s2 : Sys) : Sys × Option Job :=
   tasksK3 jo tasks1 (handlePendingTasks s2 jo rj2 tasks1).2 (handlePendingTasks s2 jo rj2 tasks1).1
@@ -651,7 +657,7 @@ theorem syncJobTasks_eqK (s : Sys) (jo : JobObj) (rj : Job) :
     | some rj3 =>
       simp only
       unfold tasksK4
-      generalize handleKillJob s3 rj3 tasks1 = r4
+      generalize handleKillJob s3 jo rj3 tasks1 = r4
       obtain ⟨s4, o4⟩ := r4
       cases o4 with
       | none => rfl
@@ -684,8 +690,8 @@ theorem tasksK3_good (jo : JobObj) (tasks1 : List Task) (o : Option Job) (s : Sy
   cases o with
   | none => exact Good.pure (fun _ => none) _ (fun _ => rfl)
   | some rj3 =>
-    exact Good.bind (g := fun t => handleKillJob t rj3 tasks1) (h := tasksK4 jo tasks1)
-      (handleKillJob_good rj3 tasks1 s) (tasksK4_good jo tasks1 _ _)
+    exact Good.bind (g := fun t => handleKillJob t jo rj3 tasks1) (h := tasksK4 jo tasks1)
+      (handleKillJob_good jo rj3 tasks1 s) (tasksK4_good jo tasks1 _ _)
 
 theorem tasksK2_good (jo : JobObj) (tasks1 : List Task) (rj2 : Job) (s : Sys) : Good (tasksK2 jo tasks1 rj2) s := by
   unfold tasksK2
@@ -718,9 +724,12 @@ theorem handleTTL_good (jo : JobObj) (rj : Job) (s : Sys) : Good (fun t => handl
   | none => exact Good.of_eq (fun q' => by simp only [h1, hfin, Bool.false_eq_true, if_false]) (Good.pure (fun _ => true) s (fun _ => rfl))
   | some fin =>
     by_cases h2 : fin.finishTimestamp.getD zeroTime + getTTLAfterFinished rj s.cfg > s.clock
-    · refine Good.of_eq (fun q' => ?_) (Good.pure (fun _ => true) s (fun _ => rfl))
+    · -- not yet expired: the timer for the expiry (finish + effective TTL), nothing else
+      refine Good.of_eq (fun q' => ?_)
+        (enqueueAfter_good (jobKey jo) (fin.finishTimestamp.getD zeroTime + getTTLAfterFinished rj s.cfg) true s)
       have : fin.finishTimestamp.getD zeroTime + getTTLAfterFinished rj (setQ s q').cfg > (setQ s q').clock := h2
       simp only [h1, hfin, this, Bool.false_eq_true, if_false, if_true]
+      rfl
     · refine Good.of_eq (fun q' => ?_) (apiDeleteJob_good jo s)
       have : ¬ fin.finishTimestamp.getD zeroTime + getTTLAfterFinished rj (setQ s q').cfg > (setQ s q').clock := h2
       simp only [h1, hfin, this, Bool.false_eq_true, if_false]
@@ -742,8 +751,8 @@ theorem handleFinalizer_good (jo : JobObj) (rj : Job) (fz : Bool) (s : Sys) :
   by_cases h2 : (!fz) = true
   · exact Good.of_eq (fun q' => by simp only [h1, h2, Bool.false_eq_true, if_false, if_true])
       (Good.pure (fun _ => some (rj, fz)) s (fun _ => rfl))
-  obtain ⟨tk, htk⟩ : ∃ tk, tk = tasksForRefsConfirmed s rj.status.tasks := ⟨_, rfl⟩
-  have e : ∀ q', tasksForRefsConfirmed (setQ s q') rj.status.tasks = tk := fun _ => htk.symm
+  obtain ⟨tk, htk⟩ : ∃ tk, tk = finalizerTasks s jo rj := ⟨_, rfl⟩
+  have e : ∀ q', finalizerTasks (setQ s q') jo rj = tk := fun _ => htk.symm
   by_cases h3 : (!tk.isEmpty) = true
   · obtain ⟨rj1, hrj1⟩ : ∃ rj1, rj1 = tk.foldl (fun acc t => updateTaskRefDeletedStatusIfNotSet acc t.name
         { state := .terminated, result := .killed, reason := "JobDeleted" }) rj := ⟨_, rfl⟩
@@ -774,7 +783,7 @@ def syncOut (jo : JobObj) (rj2 : Job) (null2 null3 : Bool) : Option (Job × Bool
 
 /-- `null3` of `sync`, computed in the state the finalizer step starts in -/
 def null3Of (jo : JobObj) (rj2 : Job) (null2 : Bool) (s3 : Sys) : Bool :=
-  match finalizerStatusInput s3 rj2 jo.finalizer with
+  match finalizerStatusInput s3 jo rj2 jo.finalizer with
   | some inp => statusHasNullTime s3 inp
   | none => null2
 
